@@ -309,4 +309,53 @@ theorem CBF.intersection_eq_some (est : Estimator) (a b r : CBF) (same : Bool)
     simp at hs
     exact ⟨hs, rfl, rfl, rfl, rfl, rfl⟩
 
+/-! ### minimum of the addressed cells -/
+
+theorem foldl_min_pos (xs : List Int) (x : Int) : 0 < xs.foldl min x ↔ 0 < x ∧ ∀ y ∈ xs, 0 < y := by
+  induction xs generalizing x with
+  | nil => simp
+  | cons y ys ih =>
+      rw [List.foldl_cons, ih]
+      simp only [List.mem_cons, forall_eq_or_imp]
+      constructor
+      · rintro ⟨h1, h2⟩; exact ⟨by omega, by omega, h2⟩
+      · rintro ⟨h1, h2, h3⟩; exact ⟨by omega, h3⟩
+
+theorem minList_pos (l : List Int) (h : l ≠ []) : 0 < CBF.minList l ↔ ∀ y ∈ l, 0 < y := by
+  cases l with
+  | nil => exact absurd rfl h
+  | cons x xs => simp [CBF.minList, foldl_min_pos]
+
+theorem clampCell_pos (v : Int) : 0 < CBF.clampCell v ↔ 0 < v := by
+  unfold CBF.clampCell
+  have : (Gen.uint32Max : Int) = 4294967295 := rfl
+  split <;> omega
+
+/-- representation invariant of the counting filter: one cell per position, at least one -/
+def CBF.WF (c : CBF) : Prop := c.cells.length = c.m ∧ 0 < c.m
+
+theorem CBF.new_wf (e f k m : Nat) (hm : 0 < m) : (CBF.new e f k m).WF := by
+  simp [CBF.WF, CBF.new, hm]
+
+/-- `check_alt` of a counting filter answers with a positive count exactly when all addressed
+    cells are non-zero -/
+theorem CBF.checkAlt_pos_iff (c : CBF) (hs : List Nat) :
+    (∃ v, c.checkAlt hs = .ok v ∧ 0 < v) ↔ hs ≠ [] ∧ ∀ h ∈ hs, 0 < c.cells.getD (h % c.m) 0 := by
+  cases hs with
+  | nil => simp [CBF.checkAlt]
+  | cons x xs =>
+      simp only [CBF.checkAlt, ne_eq, reduceCtorEq, not_false_eq_true, true_and]
+      constructor
+      · rintro ⟨v, hv, hp⟩
+        injection hv with hv
+        rw [← hv, minList_pos _ (by simp)] at hp
+        intro h hh
+        exact hp _ (List.mem_map.2 ⟨h, hh, rfl⟩)
+      · intro hall
+        refine ⟨_, rfl, ?_⟩
+        rw [minList_pos _ (by simp)]
+        intro y hy
+        obtain ⟨h, hh, rfl⟩ := List.mem_map.1 hy
+        exact hall h hh
+
 end PyProb
